@@ -15,8 +15,8 @@ type Graph struct {
 	Root         *SNode
 	Types        map[string]*SNode
 	KeysOptional bool // applies to the root text only (added types are separate schema objects)
-	// OptTypes: the added types that were themselves created with KeysAreOptionalByDefault (only the
-	// reference analysis of C09 uses it)
+	// OptTypes: the added types that were themselves created with KeysAreOptionalByDefault: their
+	// unmarked keys are optional wherever the type is used - also when its properties are inherited
 	OptTypes map[string]bool
 }
 
@@ -58,7 +58,8 @@ func (c *composer) accType(name string, doc *Value, guard []string) bool {
 		c.unspecified("reference to a missing type")
 		return false
 	}
-	return c.acc(t, doc, false, append(guard, name))
+	// (a type created with KeysAreOptionalByDefault brings that default along, wherever it is used)
+	return c.acc(t, doc, c.g.OptTypes[name], append(guard, name))
 }
 
 func kindNameMatches(kind string, doc *Value, orMember bool) (bool, string) {
@@ -276,7 +277,7 @@ func (c *composer) merge(n *SNode, keysOpt bool, inherited bool, seen map[string
 				continue
 			}
 			seen[name] = true
-			pp, pap := c.merge(t, false, true, seen)
+			pp, pap := c.merge(t, c.g.OptTypes[name], true, seen)
 			delete(seen, name)
 			props = append(props, pp...)
 			if ap == nil {
